@@ -13,7 +13,7 @@ import p_webseed
 import p_http
 import p_privacy
 
-HOOK_COMMITS = ["ad8b203", "23d7fe8", "8de280d", "16a7335", "4ddeda5", "a9fce0f", "a520d9f", "e8728f0", "f1ee887", "0fe75e2", "19b6519", "e17ca75"]
+HOOK_COMMITS = ["ad8b203", "23d7fe8", "8de280d", "16a7335", "4ddeda5", "a9fce0f", "a520d9f", "e8728f0", "f1ee887", "0fe75e2", "19b6519", "e17ca75", "a0fde5f"]
 
 NOT_APPLICABLE = {}
 
